@@ -16,7 +16,7 @@ import Tickit.Proof.Pen
   Every theorem is universally quantified (all pens, attributes, values, strings); none uses a bound.
 -/
 namespace Tickit.Props.C19
-open Tickit Tickit.Pen Tickit.Gen.PenLayout
+open Tickit Tickit.Bitfield Tickit.Pen Tickit.PenHistory Tickit.Gen.PenLayout
 
 /-! ### representable values (tie to the extracted layout) -/
 
@@ -357,7 +357,7 @@ theorem desc_refines (sc : Scanf) (p : Pen) (a : PenAttr) (s : List UInt8) :
 /-! ### which strings give which index (under the recorded behaviour of glibc's `sscanf`, `glibcScanf`)
 
 These are the `desc_grammar` statements of DESIGN.md: they depend on the small explicit model of `sscanf`
-(`Tickit.Scan`), which is tied to the real libc only by differential execution. -/
+(`Tickit.PenScan`), which is tied to the real libc only by differential execution. -/
 
 /-- Every name of the `colournames[]` table (regenerated from the source) gives its table index. -/
 theorem desc_names :
@@ -369,41 +369,41 @@ theorem desc_hi_names :
   decide +kernel
 
 /-- A decimal number (any number of digits, value below 2^31) is that index … -/
-theorem desc_number (ds : List UInt8) (hne : ds ≠ []) (hd : ∀ d ∈ ds, Scan.isDigit d = true) (hv : Scan.decVal ds < 2 ^ 31) :
-    descParse glibcScanf ds = some ((Scan.decVal ds : Int), none) := Scan.desc_number ds hne hd hv
+theorem desc_number (ds : List UInt8) (hne : ds ≠ []) (hd : ∀ d ∈ ds, PenScan.isDigit d = true) (hv : PenScan.decVal ds < 2 ^ 31) :
+    descParse glibcScanf ds = some ((PenScan.decVal ds : Int), none) := PenScan.desc_number ds hne hd hv
 
 /-- … and after `hi-` the numbers 0…7 give 8…15 and larger ones are rejected. -/
-theorem desc_hi_number (ds : List UInt8) (hne : ds ≠ []) (hd : ∀ d ∈ ds, Scan.isDigit d = true) (hv : Scan.decVal ds < 2 ^ 31) :
-    descParse glibcScanf (hiPrefix ++ ds) = if Scan.decVal ds ≤ 7 then some ((Scan.decVal ds : Int) + 8, none) else none :=
-  Scan.desc_hi_number ds hne hd hv
+theorem desc_hi_number (ds : List UInt8) (hne : ds ≠ []) (hd : ∀ d ∈ ds, PenScan.isDigit d = true) (hv : PenScan.decVal ds < 2 ^ 31) :
+    descParse glibcScanf (hiPrefix ++ ds) = if PenScan.decVal ds ≤ 7 then some ((PenScan.decVal ds : Int) + 8, none) else none :=
+  PenScan.desc_hi_number ds hne hd hv
 
 /-- The `#rrggbb` tail: after any base without `#` that does not end in a space, any number of spaces, `#` and
     six hexadecimal characters (anything may follow): the index is that of the base alone and the RGB8 is the
     three bytes. -/
 theorem desc_rgb_tail (base : List UInt8) (n : Nat) (a b c d e f : UInt8) (rest : List UInt8)
     (h1 : ∀ x ∈ base, (x == 35) = false) (h2 : base.getLast? ≠ some 32)
-    (hx : [a, b, c, d, e, f].all Scan.isXDigit = true) :
+    (hx : [a, b, c, d, e, f].all PenScan.isXDigit = true) :
     descParse glibcScanf (base ++ List.replicate n 32 ++ 35 :: a :: b :: c :: d :: e :: f :: rest) =
       (descParse glibcScanf base).map (fun r => (r.1, some
-        ⟨UInt8.ofNat (Scan.xval a * 16 + Scan.xval b), UInt8.ofNat (Scan.xval c * 16 + Scan.xval d),
-         UInt8.ofNat (Scan.xval e * 16 + Scan.xval f)⟩)) := by
+        ⟨UInt8.ofNat (PenScan.xval a * 16 + PenScan.xval b), UInt8.ofNat (PenScan.xval c * 16 + PenScan.xval d),
+         UInt8.ofNat (PenScan.xval e * 16 + PenScan.xval f)⟩)) := by
   simp only [List.all_cons, List.all_nil, Bool.and_true, Bool.and_eq_true] at hx
   obtain ⟨ha, hb, hc, hd, he, hf⟩ := hx
-  have := Scan.descParse_tail glibcScanf base n (a :: b :: c :: d :: e :: f :: rest) h1 h2
-    (fun b' => Scan.scanD_hashTail b' n _)
+  have := PenScan.descParse_tail glibcScanf base n (a :: b :: c :: d :: e :: f :: rest) h1 h2
+    (fun b' => PenScan.scanD_hashTail b' n _)
   rw [List.append_assoc]
-  rw [show List.replicate n 32 ++ 35 :: a :: b :: c :: d :: e :: f :: rest = Scan.hashTail n (a :: b :: c :: d :: e :: f :: rest) from rfl]
+  rw [show List.replicate n 32 ++ 35 :: a :: b :: c :: d :: e :: f :: rest = PenScan.hashTail n (a :: b :: c :: d :: e :: f :: rest) from rfl]
   rw [this]
   congr 1
   funext r
-  show (r.1, Scan.scanRgb _) = _
-  rw [Scan.scanRgb_hex6 a b c d e f rest ha hb hc hd he hf]
+  show (r.1, PenScan.scanRgb _) = _
+  rw [PenScan.scanRgb_hex6 a b c d e f rest ha hb hc hd he hf]
 
 /-- Every table name (and every decimal number) is a legal base for `desc_rgb_tail`. -/
 theorem desc_bases_ok :
     colourNames.all (fun e => e.1.all (fun x => !(x == 35)) && !(e.1.getLast? == some 32)) = true ∧
-    ∀ ds : List UInt8, (∀ d ∈ ds, Scan.isDigit d = true) → (∀ x ∈ ds, (x == 35) = false) ∧ ds.getLast? ≠ some 32 := by
-  refine ⟨by decide +kernel, fun ds hd => ⟨fun x hx => (Scan.digit_facts x (hd x hx)).2.2.2.1, ?_⟩⟩
+    ∀ ds : List UInt8, (∀ d ∈ ds, PenScan.isDigit d = true) → (∀ x ∈ ds, (x == 35) = false) ∧ ds.getLast? ≠ some 32 := by
+  refine ⟨by decide +kernel, fun ds hd => ⟨fun x hx => (PenScan.digit_facts x (hd x hx)).2.2.2.1, ?_⟩⟩
   intro hl
   have hm : (32 : UInt8) ∈ ds := List.mem_of_getLast? hl
   have := hd 32 hm
